@@ -148,7 +148,7 @@ def finish(ctx, t0):
         loc = ("%s:%s" % (f.file, f.line)) if f.file else "-"
         print("VIOLATION property=%s replay=%s rule=%s key=%s at=%s :: %s" % (ctx.pid, rp, f.rule, f.full_key(), loc, f.msg))
     absent = [k for k in kmap if k not in {f.full_key() for f in ctx.findings}]
-    if not ctx.only_rule:
+    if not ctx.only_rule and not os.environ.get("STAM_VERIF_NOEVIDENCE"):
         write_evidence(ctx, t0, new, still_known, absent)
     if rc == 0 and not ctx.only_rule:
         print("OK property=%s tier=%s rules=%d instances=%d known=%d wall=%.1fs" % (
